@@ -2,6 +2,62 @@ import PoryProofs.AsmSem
 import PoryProofs.EmitLemmas
 import PoryProofs.Properties.C05
 import PoryProofs.Properties.C02
+/-
+The last link of the compiler-correctness chain: the chunk-graph machine `Sem.gstep` is simulated
+by the assembly machine `Asm.astep` (`PoryProofs/AsmSem.lean`) running the structured lines that
+`renderChunks` produces for ONE script — for either chunk order and with or without line markers.
+Nothing is `sorry`; nothing is partial (all five branch kinds: `none`, `jump`, `breakCtx`, `leaf`,
+`switch_`).
+
+Main results
+* `render_sim` (§9): for a chunk table `G` with pairwise distinct ids containing 0, `Closed G`,
+  `PreambleOK G`, and `renderChunks o patches G name isGlobal tl = .ok ls`:
+  there is the chunk order `order` (`C05.chunkOrder o G = .ok order`) such that
+  - every graph configuration `(k, off, h)` has a program counter related to it by `RA`
+    (`ra_exists`, lemma (a));
+  - under `SwitchNotLast G order` and `Compat o patches name G w aw`:
+    the first line leads to the configuration of `(0, 0, [])` (`entry_sim`);
+    one `gstep` is matched by ≥ 1 `astep`s reaching a related configuration, or both finish with
+    corresponding outcome (`ORel`) and equal history — the only 0-step case being a fall-through
+    into the chunk laid out next, with unchanged assembly configuration (`sim_step`);
+    a finished graph run is matched by a finished assembly run (`run_sim`), which therefore never
+    ends in `runOff` / `stuck` (`no_runoff`).
+* `compat_induced` (§8): `Compat` holds for the world induced by an assembly world through the
+  documented meaning of leaves, for well-formed leaves (`C02.leaf_rendering_sound`).
+* Key lemmas: `renderChunks_ok` (decomposition of the output as `layout`), `renderBranching_eq`
+  (all branch kinds leave through one `exitTo` shape), `findLabel_layout` / `land_jump` (lemma (c):
+  a registered target's label line exists, is the first line with that name, and lookup arrives at
+  the chunk), `exit_sim` (lemma (b): fall-through arrives at the next chunk), `test_block`
+  (a rendered leaf block executes as `Spec.execTest`), `case_block` (first matching case jumps),
+  `labelsInjective` (`name`, `name_1`, `name_2`, … are pairwise distinct — proved, not assumed).
+
+Hypotheses, and where they come from
+* `Closed G`: every id `gstep` can go to from a chunk is the id of a chunk of `G` **and is not 0**.
+  (A jump to chunk 0 would be rendered `goto name_0`, but chunk 0's label is the bare `name`;
+  the emitter only ever targets freshly allocated ids ≥ 1.)
+* `PreambleOK G`: the AutoVar command of a leaf is not named `end` / `return` / `goto`
+  (`gstep` appends it unconditionally; the assembly machine would finish on such a line).
+* `SwitchNotLast G order` — see the finding below.
+* `Compat`: ties the two worlds.
+* NOT needed as hypotheses (derived from the successful rendering): chunks contain only
+  `cmd` / `label` statements; user labels differ from generated labels (`Hygienic`):
+  `renderStatements` checks both (`renderStatements_ok`).  `LabelsInjective` is proved.
+* Outcomes: a finishing user `goto` has the *patched* arguments in the assembly
+  (`ORel … (.jump c.args) (.jump (patchedArgs patches c))`).
+
+Finding (`no_runoff`, §10 `badG`): `renderBranching`'s `switch_` case with `dflt = none`,
+`dest = none`, `next = none` returns fall-through with nothing after it (Go: `else if
+s.destChunkID != nextChunkID` compares -1 with -1 and skips the `return`; `breakContext` and the
+leaf branch test `== -1` first).  `Closed` does not exclude it (`badG` is closed, renders, and its
+assembly runs off the end while the graph returns).  It cannot happen for tables the emitter
+builds: a `switch_` chunk always has a body chunk with a larger id, which both orders place after
+it (sorted order: larger id; optimised order: the body is nobody's tail, and the scan picks the
+smallest unvisited id).  This is the hypothesis `SwitchNotLast`; it is *proved* for both orders
+from two facts about the table — "some chunk has a larger id" (`switchNotLast_sorted`, §9b) and
+"… and that chunk is nobody's `tailId`" (`switchNotLast_optimized`, `PoryProofs/SwitchNotLast.lean`)
+— which the worklist's id allocation guarantees but which are not derived from `scriptChunks`
+here.
+-/
 namespace Pory.RenderSim
 open Pory Pory.Emit Pory.Sem Pory.Asm
 
@@ -341,19 +397,52 @@ def isTestLine : Line → Bool
   | .gotoIfTrainer .. => true
   | _ => false
 
+theorem star_cases {c : ACfg} {r : ARes} (h : AStar aw ls (.next c) r) :
+    r = .next c ∨ APlus aw ls c r := by
+  cases h with
+  | refl => exact .inl rfl
+  | step h => exact .inr h
+
+theorem star_plus {a c : ACfg} {r : ARes} (h1 : AStar aw ls (.next a) (.next c))
+    (h2 : APlus aw ls c r) : APlus aw ls a r := by
+  rcases star_cases aw ls h1 with h | h
+  · injection h with h; subst h; exact h2
+  · exact AStar.trans h h2.star
+
+theorem plus_star {a : ACfg} {r r' : ARes} (h1 : APlus aw ls a r) (h2 : AStar aw ls r r') :
+    APlus aw ls a r' := AStar.trans h1 h2
+
+/-- Result of running a block of test lines from `c` (see `test_block`). -/
+def TBRes (c : ACfg) (X : List Line) (res : Option String) (r : ARes) : Prop :=
+  match res with
+  | some l => APlus aw ls c r ∧ ∃ regs', r = jumpTo ls l ⟨0, c.h, regs', c.sw⟩
+  | none => AStar aw ls (.next c) r ∧
+      ∃ pc' regs', r = .next ⟨pc', c.h, regs', c.sw⟩ ∧ ls.drop pc' = X
+
+theorem tb_wrap {c c' : ACfg} {X : List Line} {res : Option String} {r : ARes}
+    (hstep : astep aw ls c = .next c') (hh : c'.h = c.h) (hsw : c'.sw = c.sw)
+    (h : TBRes aw ls c' X res r) : TBRes aw ls c X res r := by
+  cases res with
+  | some l =>
+    obtain ⟨h1, regs', h2⟩ := h
+    refine ⟨?_, regs', by rw [← hh, ← hsw]; exact h2⟩
+    show AStar aw ls (astep aw ls c) r
+    rw [hstep]; exact h1.star
+  | none =>
+    obtain ⟨h1, pc', regs', h2, h3⟩ := h
+    exact ⟨.step (by rw [hstep]; exact h1), pc', regs', by rw [← hh, ← hsw]; exact h2, h3⟩
+
 /-- A block of test lines executes as `Spec.execTest` says: either one of its conditional jumps
-is taken, or control arrives behind the block; history and switch register are unchanged. -/
+is taken (after at least one step), or control arrives behind the block; history and switch
+register are unchanged. -/
 theorem test_block : ∀ (b : List Line) (X : List Line) (c : ACfg), (∀ l ∈ b, isTestLine l = true) →
     ls.drop c.pc = b ++ X →
-    ∃ r, AStar aw ls (.next c) r ∧
-      match Spec.execTest (aw.at c.h) [] b c.regs with
-      | some l => ∃ regs', r = jumpTo ls l ⟨0, c.h, regs', c.sw⟩
-      | none => ∃ pc' regs', r = .next ⟨pc', c.h, regs', c.sw⟩ ∧ ls.drop pc' = X := by
+    ∃ r, TBRes aw ls c X (Spec.execTest (aw.at c.h) [] b c.regs) r := by
   intro b
   induction b with
   | nil =>
     intro X c _ h
-    exact ⟨_, .refl _, by simp only [Spec.execTest]; exact ⟨c.pc, c.regs, rfl, h⟩⟩
+    exact ⟨_, .refl _, c.pc, c.regs, rfl, h⟩
   | cons l b ih =>
     intro X c hb h
     have hb' : ∀ l ∈ b, isTestLine l = true := fun l hl => hb l (List.mem_cons_of_mem _ hl)
@@ -362,48 +451,52 @@ theorem test_block : ∀ (b : List Line) (X : List Line) (c : ACfg), (∀ l ∈ 
     have hs := astep_of_drop aw ls (show ls.drop c.pc = l :: (b ++ X) from h)
     cases l with
     | marker n f =>
-      obtain ⟨r, hr1, hr2⟩ := ih X { c with pc := c.pc + 1 } hb' hd.2
-      exact ⟨r, .step (by rw [hs]; exact hr1), by simpa [Spec.execTest] using hr2⟩
+      obtain ⟨r, hr⟩ := ih X { c with pc := c.pc + 1 } hb' hd.2
+      exact ⟨r, tb_wrap aw ls (c' := { c with pc := c.pc + 1 }) (by rw [hs]; rfl) rfl rfl (by simpa [Spec.execTest] using hr)⟩
     | gotoIfSet f lab =>
       by_cases hf : aw.flag c.h f = true
-      · refine ⟨_, .step (.refl _), ?_⟩
+      · refine ⟨jumpTo ls lab ⟨0, c.h, c.regs, c.sw⟩, ?_⟩
         simp only [Spec.execTest, AWorld.at, hf, if_true]
-        exact ⟨c.regs, by rw [hs]; simp [exec, hf]; rfl⟩
-      · obtain ⟨r, hr1, hr2⟩ := ih X { c with pc := c.pc + 1 } hb' hd.2
-        refine ⟨r, .step (by rw [hs]; simpa [exec, hf, fallThrough] using hr1), ?_⟩
-        simpa [Spec.execTest, AWorld.at, hf] using hr2
+        exact ⟨by show AStar aw ls (astep aw ls c) _; rw [hs]; simp only [exec, hf, if_true]; exact .refl _,
+          c.regs, rfl⟩
+      · obtain ⟨r, hr⟩ := ih X { c with pc := c.pc + 1 } hb' hd.2
+        refine ⟨r, tb_wrap aw ls (c' := { c with pc := c.pc + 1 }) (by rw [hs]; simp [exec, hf, fallThrough]) rfl rfl ?_⟩
+        simpa [Spec.execTest, AWorld.at, hf] using hr
     | gotoIfUnset f lab =>
       by_cases hf : aw.flag c.h f = true
-      · obtain ⟨r, hr1, hr2⟩ := ih X { c with pc := c.pc + 1 } hb' hd.2
-        refine ⟨r, .step (by rw [hs]; simpa [exec, hf, fallThrough] using hr1), ?_⟩
-        simpa [Spec.execTest, AWorld.at, hf] using hr2
-      · refine ⟨_, .step (.refl _), ?_⟩
+      · obtain ⟨r, hr⟩ := ih X { c with pc := c.pc + 1 } hb' hd.2
+        refine ⟨r, tb_wrap aw ls (c' := { c with pc := c.pc + 1 }) (by rw [hs]; simp [exec, hf, fallThrough]) rfl rfl ?_⟩
+        simpa [Spec.execTest, AWorld.at, hf] using hr
+      · refine ⟨jumpTo ls lab ⟨0, c.h, c.regs, c.sw⟩, ?_⟩
         simp only [Spec.execTest, AWorld.at, hf]
-        exact ⟨c.regs, by rw [hs]; simp [exec, hf]; rfl⟩
+        exact ⟨by show AStar aw ls (astep aw ls c) _; rw [hs]; simp only [exec, hf]; exact .refl _,
+          c.regs, rfl⟩
     | compare st v x =>
-      obtain ⟨r, hr1, hr2⟩ := ih X { c with pc := c.pc + 1, regs := { c.regs with cmp := aw.cmp c.h v x } } hb' hd.2
-      refine ⟨r, .step (by rw [hs]; simpa [exec, fallThrough] using hr1), ?_⟩
-      simpa [Spec.execTest, AWorld.at] using hr2
+      obtain ⟨r, hr⟩ := ih X { c with pc := c.pc + 1, regs := { c.regs with cmp := aw.cmp c.h v x } } hb' hd.2
+      refine ⟨r, tb_wrap aw ls (c' := { c with pc := c.pc + 1, regs := { c.regs with cmp := aw.cmp c.h v x } }) (by rw [hs]; simp [exec, fallThrough]) rfl rfl ?_⟩
+      simpa [Spec.execTest, AWorld.at] using hr
     | gotoIfCmp op lab =>
       by_cases hf : Spec.cmpHolds op c.regs.cmp = true
-      · refine ⟨_, .step (.refl _), ?_⟩
+      · refine ⟨jumpTo ls lab ⟨0, c.h, c.regs, c.sw⟩, ?_⟩
         simp only [Spec.execTest, hf, if_true]
-        exact ⟨c.regs, by rw [hs]; simp [exec, hf]; rfl⟩
-      · obtain ⟨r, hr1, hr2⟩ := ih X { c with pc := c.pc + 1 } hb' hd.2
-        refine ⟨r, .step (by rw [hs]; simpa [exec, hf, fallThrough] using hr1), ?_⟩
-        simpa [Spec.execTest, hf] using hr2
+        exact ⟨by show AStar aw ls (astep aw ls c) _; rw [hs]; simp only [exec, hf, if_true]; exact .refl _,
+          c.regs, rfl⟩
+      · obtain ⟨r, hr⟩ := ih X { c with pc := c.pc + 1 } hb' hd.2
+        refine ⟨r, tb_wrap aw ls (c' := { c with pc := c.pc + 1 }) (by rw [hs]; simp [exec, hf, fallThrough]) rfl rfl ?_⟩
+        simpa [Spec.execTest, hf] using hr
     | checkTrainerFlag t =>
-      obtain ⟨r, hr1, hr2⟩ := ih X { c with pc := c.pc + 1, regs := { c.regs with trainer := aw.trainer c.h t } } hb' hd.2
-      refine ⟨r, .step (by rw [hs]; simpa [exec, fallThrough] using hr1), ?_⟩
-      simpa [Spec.execTest, AWorld.at] using hr2
+      obtain ⟨r, hr⟩ := ih X { c with pc := c.pc + 1, regs := { c.regs with trainer := aw.trainer c.h t } } hb' hd.2
+      refine ⟨r, tb_wrap aw ls (c' := { c with pc := c.pc + 1, regs := { c.regs with trainer := aw.trainer c.h t } }) (by rw [hs]; simp [exec, fallThrough]) rfl rfl ?_⟩
+      simpa [Spec.execTest, AWorld.at] using hr
     | gotoIfTrainer set lab =>
       by_cases hf : (c.regs.trainer == set) = true
-      · refine ⟨_, .step (.refl _), ?_⟩
+      · refine ⟨jumpTo ls lab ⟨0, c.h, c.regs, c.sw⟩, ?_⟩
         simp only [Spec.execTest, hf, if_true]
-        exact ⟨c.regs, by rw [hs]; simp [exec, hf]; rfl⟩
-      · obtain ⟨r, hr1, hr2⟩ := ih X { c with pc := c.pc + 1 } hb' hd.2
-        refine ⟨r, .step (by rw [hs]; simpa [exec, hf, fallThrough] using hr1), ?_⟩
-        simpa [Spec.execTest, hf] using hr2
+        exact ⟨by show AStar aw ls (astep aw ls c) _; rw [hs]; simp only [exec, hf, if_true]; exact .refl _,
+          c.regs, rfl⟩
+      · obtain ⟨r, hr⟩ := ih X { c with pc := c.pc + 1 } hb' hd.2
+        refine ⟨r, tb_wrap aw ls (c' := { c with pc := c.pc + 1 }) (by rw [hs]; simp [exec, hf, fallThrough]) rfl rfl ?_⟩
+        simpa [Spec.execTest, hf] using hr
     | _ => simp [isTestLine] at hl
 
 end Machine
@@ -490,7 +583,7 @@ theorem enter {pre rest : List Nat} {d : Nat} (hord : order = pre ++ d :: rest) 
   rw [layout_cons] at hdrop
   unfold lbl at hdrop
   split at hdrop
-  · simp only [List.cons_append, List.nil_append, List.append_assoc] at hdrop
+  · simp only [List.cons_append, List.nil_append] at hdrop
     refine ⟨{ c with pc := c.pc + 1 }, .step ?_, hh, pre, rest, hord, ?_⟩
     · rw [astep_of_drop aw ls hdrop]; exact .refl _
     · rw [(drop_head hdrop).2]
@@ -547,13 +640,15 @@ theorem exit_sim (S : Setup o patches name G isGlobal ls order) {pre rest : List
     (hdrop : ls.drop c.pc = (exitTo name dest rest.head?).1 ++
       (if (exitTo name dest rest.head?).2.2 then [] else [.blank]) ++
       layout o patches name G isGlobal (regsOf o patches name G order) rest) :
-    ∃ ra, AStar aw ls (.next c) ra ∧ MatchA o patches name G isGlobal ls order (goto dest gh) ra := by
+    ∃ ra, MatchA o patches name G isGlobal ls order (goto dest gh) ra ∧
+      (APlus aw ls c ra ∨ (ra = .next c ∧ ∃ d, dest = some d ∧ rest.head? = some d)) := by
   cases dest with
   | none =>
     simp only [exitTo] at hdrop
-    refine ⟨.fin .ret c.h, .step ?_, ?_⟩
-    · rw [astep_of_drop aw ls (by simpa using hdrop)]; exact .refl _
+    refine ⟨.fin .ret c.h, ?_, .inl ?_⟩
     · simp [goto, MatchA, ORel, hh]
+    · show AStar aw ls (astep aw ls c) _
+      rw [astep_of_drop aw ls (by simpa using hdrop)]; exact .refl _
   | some d =>
     obtain ⟨hd0, hdo⟩ := hdest d rfl
     unfold exitTo at hdrop hreg
@@ -562,7 +657,8 @@ theorem exit_sim (S : Setup o patches name G isGlobal ls order) {pre rest : List
     · rename_i hne
       rw [if_pos hne] at hreg
       obtain ⟨a', hs, hr⟩ := land_jump (aw := aw) S hdo hd0 (hreg d (by simp)) c gh hh
-      refine ⟨.next a', .step ?_, hr⟩
+      refine ⟨.next a', hr, .inl ?_⟩
+      show AStar aw ls (astep aw ls c) _
       rw [astep_of_drop aw ls (by simpa using hdrop)]
       exact hs
     · rename_i hne
@@ -575,7 +671,10 @@ theorem exit_sim (S : Setup o patches name G isGlobal ls order) {pre rest : List
         | cons x r => simp at hhead; exact ⟨r, by rw [hhead]⟩
       have hord' : order = (pre ++ [k]) ++ d :: rest' := by simp [hord]
       obtain ⟨a', hs, hr⟩ := enter (aw := aw) hord' c gh hh (by simpa using hdrop)
-      exact ⟨.next a', hs, hr⟩
+      refine ⟨.next a', hr, ?_⟩
+      rcases star_cases aw ls hs with h | h
+      · exact .inr ⟨h, d, rfl, rfl⟩
+      · exact .inl h
 
 theorem special_none {c : Cmd} (h : specialCmd c = none) (args : List String) :
     specialLine c.name args = none := by
@@ -710,12 +809,43 @@ theorem preamble_step (e : OpExpr) (hp : ∀ p, e.preamble = some p → specialC
       exact .refl _
     · simp [runPre, hh, rh]
 
-/-- **One graph step is matched by zero or more assembly steps** (zero only for a fall-through
-into a chunk that has no label line; see `sim_step_progress`). -/
+/-- `d` is laid out directly after `k`. -/
+def Succ (order : List Nat) (k d : Nat) : Prop := ∃ pre rest', order = pre ++ k :: d :: rest'
+
+theorem succ_of_head {pre rest : List Nat} {k d : Nat} (hord : order = pre ++ k :: rest)
+    (hh : rest.head? = some d) : Succ order k d := by
+  cases rest with
+  | nil => simp at hh
+  | cons x r => simp at hh; subst hh; exact ⟨pre, r, hord⟩
+
+theorem exit_star {c : ACfg} {ra : ARes} {F : Prop}
+    (hx : APlus aw ls c ra ∨ (ra = .next c ∧ F)) : AStar aw ls (.next c) ra := by
+  rcases hx with h | ⟨h, _⟩
+  · exact h.star
+  · rw [h]; exact .refl _
+
+theorem adv_of_exit (w : SWorld) {g : GCfg} {a c : ACfg} {ra : ARes} {dest : Option Nat} {h' : Hist}
+    {pre rest : List Nat} (hord : order = pre ++ g.k :: rest) (hgs : gstep w G g = goto dest h')
+    (hs : AStar aw ls (.next a) (.next c))
+    (hx : APlus aw ls c ra ∨ (ra = .next c ∧ ∃ d, dest = some d ∧ rest.head? = some d)) :
+    APlus aw ls a ra ∨ (ra = .next a ∧ ∃ g', gstep w G g = .next g' ∧ Succ order g.k g'.k) := by
+  rcases hx with h | ⟨h, d, hd, hhead⟩
+  · exact .inl (star_plus aw ls hs h)
+  · rcases star_cases aw ls hs with h2 | h2
+    · injection h2 with h2
+      subst h2
+      exact .inr ⟨h, ⟨d, 0, h'⟩, by rw [hgs, hd]; rfl, succ_of_head hord hhead⟩
+    · exact .inl (by rw [h]; exact h2)
+
+/-- **One graph step is matched by one or more assembly steps**, except for a fall-through into
+a chunk without label line, which needs no assembly step: then the assembly configuration is
+unchanged and the graph has moved to the chunk laid out next (so this cannot repeat forever:
+`Succ` strictly advances in the duplicate-free `order`). -/
 theorem sim_step (S : Setup o patches name G isGlobal ls order) (w : SWorld)
     (C : Compat o patches name G w aw) (P : PreambleOK G) (SW : SwitchNotLast G order)
     {g : GCfg} {a : ACfg} (hR : RA o patches name G isGlobal ls order g a) :
-    ∃ ra, AStar aw ls (.next a) ra ∧ MatchA o patches name G isGlobal ls order (gstep w G g) ra := by
+    ∃ ra, MatchA o patches name G isGlobal ls order (gstep w G g) ra ∧
+      (APlus aw ls a ra ∨ (ra = .next a ∧ ∃ g', gstep w G g = .next g' ∧ Succ order g.k g'.k)) := by
   obtain ⟨k, off, gh⟩ := g
   obtain ⟨hh, pre, rest, hord, hdrop⟩ := hR
   simp only at hh hord hdrop
@@ -725,8 +855,6 @@ theorem sim_step (S : Setup o patches name G isGlobal ls order) (w : SWorld)
   have hid : (chunkOf G k).id = k := by
     have := List.find?_some hf
     simpa using this
-  unfold gstep
-  simp only [hf]
   cases hst : (chunkOf G k).statements[off]? with
   | some st =>
     obtain ⟨hlt, hget⟩ := List.getElem?_eq_some_iff.1 hst
@@ -736,7 +864,6 @@ theorem sim_step (S : Setup o patches name G isGlobal ls order) (w : SWorld)
     have hsimple := S.simple k hk st (List.mem_of_getElem? hst)
     cases st with
     | cmd cm =>
-      dsimp only
       simp only [stmtLines, List.append_assoc] at hdrop
       obtain ⟨pc1, hs1, hd1⟩ := skip_marker aw ls o cm.tok hdrop
       have hd1' : ls.drop (ACfg.pc { a with pc := pc1 }) = renderCommand patches cm ::
@@ -745,27 +872,35 @@ theorem sim_step (S : Setup o patches name G isGlobal ls order) (w : SWorld)
       have hstep := astep_of_drop aw ls hd1'
       cases hsp : specialCmd cm with
       | some oc =>
+        have hgs : gstep w G ⟨k, off, gh⟩ = .fin oc gh := by simp [gstep, hf, hst, hsp]
+        rw [hgs]
         obtain ⟨oc', ho1, ho2⟩ := special_some (patches := patches) hsp
-        refine ⟨.fin oc' a.h, hs1.trans (.step ?_), ?_⟩
-        · rw [hstep]; simp only [renderCommand, exec, ho1]; exact .refl _
-        · simp [MatchA, ho2, hh]
+        refine ⟨.fin oc' a.h, by simp [MatchA, ho2, hh], .inl (star_plus aw ls hs1 ?_)⟩
+        show AStar aw ls (astep aw ls _) _
+        rw [hstep]; simp only [renderCommand, exec, ho1]; exact .refl _
       | none =>
+        have hgs : gstep w G ⟨k, off, gh⟩ = .next ⟨k, off + 1, gh ++ [cm]⟩ := by
+          simp [gstep, hf, hst, hsp]
+        rw [hgs]
         have hn := special_none hsp (patchedArgs patches cm)
         refine ⟨.next { a with pc := pc1 + 1, h := a.h ++ [renderCommand patches cm] },
-          hs1.trans (.step ?_), ?_⟩
-        · rw [hstep]; simp only [renderCommand, exec, hn]; exact .refl _
-        · exact matchA_next ⟨by simp [hh, rh], pre, rest, hord, (drop_head hd1').2⟩
+          matchA_next ⟨by simp [hh, rh], pre, rest, hord, (drop_head hd1').2⟩,
+          .inl (star_plus aw ls hs1 ?_)⟩
+        show AStar aw ls (astep aw ls _) _
+        rw [hstep]; simp only [renderCommand, exec, hn]; exact .refl _
     | label tok n gl =>
-      dsimp only
+      have hgs : gstep w G ⟨k, off, gh⟩ = .next ⟨k, off + 1, gh⟩ := by simp [gstep, hf, hst]
+      rw [hgs]
       simp only [stmtLines, List.append_assoc] at hdrop
       obtain ⟨pc1, hs1, hd1⟩ := skip_marker aw ls o tok hdrop
       have hd1' : ls.drop (ACfg.pc { a with pc := pc1 }) = Line.labelDef n gl ::
           (stmtLines o patches ((chunkOf G k).statements.drop (off + 1)) ++
             brTail o patches name G isGlobal order (chunkOf G k) rest) := by simpa using hd1
       have hstep := astep_of_drop aw ls hd1'
-      refine ⟨.next { a with pc := pc1 + 1 }, hs1.trans (.step ?_), ?_⟩
-      · rw [hstep]; exact .refl _
-      · exact matchA_next ⟨hh, pre, rest, hord, (drop_head hd1').2⟩
+      refine ⟨.next { a with pc := pc1 + 1 },
+        matchA_next ⟨hh, pre, rest, hord, (drop_head hd1').2⟩, .inl (star_plus aw ls hs1 ?_)⟩
+      show AStar aw ls (astep aw ls _) _
+      rw [hstep]; exact .refl _
     | _ => simp [isSimple] at hsimple
   | none =>
     have hle : (chunkOf G k).statements.length ≤ off := by simpa using hst
@@ -776,6 +911,7 @@ theorem sim_step (S : Setup o patches name G isGlobal ls order) (w : SWorld)
     have hcl := S.closed k hk
     unfold targets at hcl
     rw [renderBranching_eq] at hdrop hreg
+    have hord' : order = pre ++ (GCfg.k ⟨k, off, gh⟩) :: rest := hord
     cases hb : (chunkOf G k).branch with
     | none =>
       rw [hb] at hdrop hreg hcl
@@ -784,81 +920,103 @@ theorem sim_step (S : Setup o patches name G isGlobal ls order) (w : SWorld)
       | none =>
         rw [hr] at hdrop
         simp only at hdrop
-        refine ⟨.fin (if (chunkOf G k).useEndTerminator then .end_ else .ret) a.h, .step ?_, ?_⟩
-        · rw [astep_of_drop aw ls (by simpa using hdrop)]; exact .refl _
+        have hgs : gstep w G ⟨k, off, gh⟩ =
+            .fin (if (chunkOf G k).useEndTerminator then .end_ else .ret) gh := by
+          simp [gstep, hf, hst, hb, hr]
+        rw [hgs]
+        refine ⟨.fin (if (chunkOf G k).useEndTerminator then .end_ else .ret) a.h, ?_, .inl ?_⟩
         · cases (chunkOf G k).useEndTerminator <;> simp [MatchA, ORel, hh]
+        · show AStar aw ls (astep aw ls _) _
+          rw [astep_of_drop aw ls (by simpa using hdrop)]; exact .refl _
       | some r =>
         rw [hr] at hdrop hreg hcl
-        exact exit_sim S hord (some r) (by
+        have hgs : gstep w G ⟨k, off, gh⟩ = goto (some r) gh := by simp [gstep, hf, hst, hb, hr, goto]
+        obtain ⟨ra, hm, hx⟩ := exit_sim (aw := aw) S hord (some r) (by
           intro d hd; injection hd with hd; subst hd; exact hcl _ (by simp)) hreg a gh hh hdrop
+        exact ⟨ra, by rw [hgs]; exact hm, adv_of_exit w hord' hgs (.refl _) hx⟩
     | jump d =>
       rw [hb] at hdrop hreg hcl
       simp only at hdrop hreg hcl
-      exact exit_sim S hord (some d) (by
+      have hgs : gstep w G ⟨k, off, gh⟩ = goto (some d) gh := by simp [gstep, hf, hst, hb, goto]
+      obtain ⟨ra, hm, hx⟩ := exit_sim (aw := aw) S hord (some d) (by
         intro d' hd; injection hd with hd; subst hd; exact hcl _ (by simp)) hreg a gh hh hdrop
+      exact ⟨ra, by rw [hgs]; exact hm, adv_of_exit w hord' hgs (.refl _) hx⟩
     | breakCtx d =>
       rw [hb] at hdrop hreg hcl
       simp only at hdrop hreg hcl
-      exact exit_sim S hord d (by
+      have hgs : gstep w G ⟨k, off, gh⟩ = goto d gh := by simp [gstep, hf, hst, hb]
+      obtain ⟨ra, hm, hx⟩ := exit_sim (aw := aw) S hord d (by
         intro d' hd; subst hd; exact hcl _ (by simp)) hreg a gh hh hdrop
+      exact ⟨ra, by rw [hgs]; exact hm, adv_of_exit w hord' hgs (.refl _) hx⟩
     | leaf t e f =>
       rw [hb] at hdrop hreg hcl
       simp only [prepend, List.append_assoc] at hdrop hreg hcl
       obtain ⟨c1, hs1, hh1, hd1⟩ := preamble_step (aw := aw) e (fun p hp => P _ hcG t e f p hb hp)
         a gh hh _ hdrop
-      obtain ⟨r, hs2, hm⟩ := test_block aw ls _ _ c1 (rbc_test t e) hd1
+      obtain ⟨r, hm⟩ := test_block aw ls _ _ c1 (rbc_test t e) hd1
       rw [hh1, C.test _ hcG t e f hb] at hm
       by_cases hw : w.test (runPre gh e.preamble) e = true
-      · simp only [hw, if_true] at hm ⊢
-        obtain ⟨regs', rfl⟩ := hm
+      · have hgs : gstep w G ⟨k, off, gh⟩ = .next ⟨t, 0, runPre gh e.preamble⟩ := by
+          simp [gstep, hf, hst, hb, hw]
+        rw [hgs]
+        simp only [hw, if_true, TBRes] at hm
+        obtain ⟨hp, regs', rfl⟩ := hm
         obtain ⟨ht0, hto⟩ := hcl t (by simp)
         obtain ⟨a', hs3, hr3⟩ := land_jump (aw := aw) S hto ht0 (hreg t (by simp))
-          ⟨0, rh patches (runPre gh e.preamble), regs', c1.sw⟩ (runPre gh e.preamble) rfl
-        exact ⟨.next a', hs1.trans (hs2.trans hs3), hr3⟩
-      · simp only [hw] at hm ⊢
-        obtain ⟨pc', regs', rfl, hd2⟩ := hm
-        obtain ⟨ra, hs3, hr3⟩ := exit_sim (aw := aw) S hord f (by
+          ⟨0, c1.h, regs', c1.sw⟩ (runPre gh e.preamble) hh1
+        exact ⟨.next a', matchA_next hr3, .inl (star_plus aw ls hs1 (plus_star aw ls hp hs3))⟩
+      · have hgs : gstep w G ⟨k, off, gh⟩ = goto f (runPre gh e.preamble) := by
+          simp [gstep, hf, hst, hb, hw]
+        simp only [hw, TBRes] at hm
+        obtain ⟨hs2, pc', regs', rfl, hd2⟩ := hm
+        obtain ⟨ra, hm3, hx⟩ := exit_sim (aw := aw) S hord f (by
             intro d' hd; subst hd; exact hcl _ (by simp)) (fun d hd => hreg d (by simp [hd]))
-          ⟨pc', rh patches (runPre gh e.preamble), regs', c1.sw⟩ (runPre gh e.preamble) rfl
+          ⟨pc', c1.h, regs', c1.sw⟩ (runPre gh e.preamble) hh1
           (by simpa [List.append_assoc] using hd2)
-        exact ⟨ra, hs1.trans (hs2.trans hs3), hr3⟩
+        exact ⟨ra, by rw [hgs]; exact hm3, adv_of_exit w hord' hgs (hs1.trans hs2) hx⟩
     | switch_ op cases dflt dest =>
-      dsimp only
       rw [hb] at hdrop hreg hcl
       simp only [prepend, List.append_assoc] at hdrop hreg hcl
       obtain ⟨pc1, hs1, hd1⟩ := skip_marker aw ls o op hdrop
       rw [List.singleton_append] at hd1
-      have hd1' := hd1
-      have hstep := astep_of_drop aw ls (c := { a with pc := pc1 }) hd1'
-      have hs2 : AStar aw ls (.next { a with pc := pc1 })
-          (.next { a with pc := pc1 + 1, sw := op.lit }) := .step (by rw [hstep]; exact .refl _)
+      have hstep := astep_of_drop aw ls (c := { a with pc := pc1 }) hd1
+      have hp2 : APlus aw ls { a with pc := pc1 } (.next { a with pc := pc1 + 1, sw := op.lit }) := by
+        show AStar aw ls (astep aw ls _) _
+        rw [hstep]; exact .refl _
       obtain ⟨r, hs3, hm⟩ := case_block (aw := aw) (ls := ls) w gh op cases _
         { a with pc := pc1 + 1, sw := op.lit }
-        (fun sc hsc => C.case_ _ hcG op cases dflt dest hb sc hsc gh) hh rfl (drop_head hd1').2
+        (fun sc hsc => C.case_ _ hcG op cases dflt dest hb sc hsc gh) hh rfl (drop_head hd1).2
       cases hfc : firstCase w gh op cases with
       | some d =>
+        have hgs : gstep w G ⟨k, off, gh⟩ = .next ⟨d, 0, gh⟩ := by simp [gstep, hf, hst, hb, hfc]
+        rw [hgs]
         rw [hfc] at hm
-        simp only at hm ⊢
+        simp only at hm
         subst hm
         have hdm := firstCase_mem w gh op cases d hfc
         obtain ⟨hd0, hdo⟩ := hcl d (by simp [hdm])
         obtain ⟨a', hs4, hr4⟩ := land_jump (aw := aw) S hdo hd0 (hreg d (by simp [hdm]))
           ⟨0, a.h, a.regs, op.lit⟩ gh hh
-        exact ⟨.next a', hs1.trans (hs2.trans (hs3.trans hs4)), hr4⟩
+        exact ⟨.next a', matchA_next hr4,
+          .inl (star_plus aw ls hs1 (plus_star aw ls hp2 (hs3.trans hs4)))⟩
       | none =>
         rw [hfc] at hm
-        simp only at hm ⊢
+        simp only at hm
         obtain ⟨pc', rfl, hd2⟩ := hm
         cases dflt with
         | some d =>
-          simp only at hd2 hreg ⊢
-          obtain ⟨ra, hs4, hr4⟩ := exit_sim (aw := aw) S hord (some d) (by
+          have hgs : gstep w G ⟨k, off, gh⟩ = goto (some d) gh := by
+            simp [gstep, hf, hst, hb, hfc, goto]
+          simp only at hd2 hreg
+          obtain ⟨ra, hm4, hx⟩ := exit_sim (aw := aw) S hord (some d) (by
               intro d' hd; injection hd with hd; subst hd; exact hcl _ (by simp))
             (fun d hd => hreg d (by simp [hd])) ⟨pc', a.h, a.regs, op.lit⟩ gh hh
             (by simpa [List.append_assoc] using hd2)
-          exact ⟨ra, hs1.trans (hs2.trans (hs3.trans hs4)), by simpa [goto] using hr4⟩
+          exact ⟨ra, by rw [hgs]; exact hm4,
+            .inl (star_plus aw ls hs1 (plus_star aw ls hp2 (hs3.trans (exit_star hx))))⟩
         | none =>
-          simp only at hd2 hreg ⊢
+          have hgs : gstep w G ⟨k, off, gh⟩ = goto dest gh := by simp [gstep, hf, hst, hb, hfc]
+          simp only at hd2 hreg
           by_cases hlast : dest = none ∧ rest.head? = none
           · exfalso
             obtain ⟨rfl, hrest⟩ := hlast
@@ -866,12 +1024,399 @@ theorem sim_step (S : Setup o patches name G isGlobal ls order) (w : SWorld)
             subst this
             exact SW _ hcG op cases hb (by rw [hid, hord]; simp)
           · rw [if_neg hlast] at hd2 hreg
-            obtain ⟨ra, hs4, hr4⟩ := exit_sim (aw := aw) S hord dest (by
+            obtain ⟨ra, hm4, hx⟩ := exit_sim (aw := aw) S hord dest (by
                 intro d' hd; subst hd; exact hcl _ (by simp))
               (fun d hd => hreg d (by simp [hd])) ⟨pc', a.h, a.regs, op.lit⟩ gh hh
               (by simpa [List.append_assoc] using hd2)
-            exact ⟨ra, hs1.trans (hs2.trans (hs3.trans hs4)), hr4⟩
+            exact ⟨ra, by rw [hgs]; exact hm4,
+              .inl (star_plus aw ls hs1 (plus_star aw ls hp2 (hs3.trans (exit_star hx))))⟩
+
+/-! ### 6. From the hypotheses about the chunk table to `Setup`; entry; every configuration -/
+
+variable (o patches name G isGlobal ls) in
+/-- `renderChunks` succeeded on a closed chunk table with distinct ids containing 0, and chunk
+labels of distinct ids are distinct: all facts the simulation needs hold for the chunk order.
+(That chunks only contain `cmd` / `label` statements and that user labels do not clash with
+generated labels — `Hygienic` — need not be assumed: `renderStatements` checks both.) -/
+theorem setup_of_render (tl : List String) (hnd : (G.map (·.id)).Nodup) (h0 : 0 ∈ G.map (·.id))
+    (hcl : Closed G) (hinj : ∀ i j, chunkLabel name i = chunkLabel name j → i = j)
+    (hr : renderChunks o patches G name isGlobal tl = .ok ls) :
+    ∃ order, C05.chunkOrder o G = .ok order ∧ order.head? = some 0 ∧
+      Setup o patches name G isGlobal ls order := by
+  obtain ⟨order, ho, hls, hall⟩ := renderChunks_ok o patches name G isGlobal tl ls hr
+  obtain ⟨hp, hh⟩ := C05.chunkOrder_perm o G order h0 ho
+  have hfound : ∀ id ∈ order, findChunk G id = some (chunkOf G id) := by
+    intro id hid
+    obtain ⟨c, sl, hc, _⟩ := hall id hid
+    simp [chunkOf, hc]
+  refine ⟨order, ho, hh, ⟨hls, hp.nodup_iff.2 hnd, hfound, ?_, ?_, hinj, ?_⟩⟩
+  · intro id hid
+    obtain ⟨c, sl, hc, hs⟩ := hall id hid
+    have : chunkOf G id = c := by simp [chunkOf, hc]
+    rw [this]
+    exact (renderStatements_ok o patches _ tl _ _ hs).2.1
+  · intro id hid n hn d hd
+    obtain ⟨c, sl, hc, hs⟩ := hall id hid
+    have hco : chunkOf G id = c := by simp [chunkOf, hc]
+    rw [hco] at hn
+    have hnot := (renderStatements_ok o patches _ tl _ _ hs).2.2 n hn
+    intro he
+    apply hnot
+    have hdG := hp.mem_iff.1 hd
+    obtain ⟨c', hc', hid'⟩ := List.mem_map.1 hdG
+    exact List.mem_map.2 ⟨c', hc', by rw [he, ← hid']⟩
+  · intro id hid d hd
+    have hcG : chunkOf G id ∈ G := List.mem_of_find?_eq_some (hfound id hid)
+    obtain ⟨h1, h2⟩ := hcl _ hcG d hd
+    exact ⟨h1, hp.mem_iff.2 h2⟩
+
+/-- The entry: from the first line of the script (chunk 0's label) the machine arrives at the
+configuration corresponding to `(0, 0, [])`. -/
+theorem entry_sim (S : Setup o patches name G isGlobal ls order) (hh : order.head? = some 0)
+    (regs : Spec.Regs) (sw : String) :
+    ∃ a0, AStar aw ls (.next ⟨0, [], regs, sw⟩) (.next a0) ∧
+      RA o patches name G isGlobal ls order ⟨0, 0, []⟩ a0 := by
+  obtain ⟨rest, hord⟩ : ∃ rest, order = [] ++ 0 :: rest := by
+    cases order with
+    | nil => simp at hh
+    | cons x r => simp at hh; exact ⟨r, by simp [hh]⟩
+  refine enter (aw := aw) hord ⟨0, [], regs, sw⟩ [] rfl ?_
+  have := S.hls
+  rw [List.drop_zero]
+  rw [hord] at this ⊢
+  simpa using this
+
+theorem stmtLines_append (a b : List Stmt) :
+    stmtLines o patches (a ++ b) = stmtLines o patches a ++ stmtLines o patches b := by
+  induction a with
+  | nil => rfl
+  | cons s r ih => cases s <;> simp [stmtLines, ih]
+
+theorem layout_append (jumps : List Nat) (k : Nat) (rest : List Nat) : ∀ pre : List Nat,
+    ∃ P, layout o patches name G isGlobal jumps (pre ++ k :: rest) =
+      P ++ layout o patches name G isGlobal jumps (k :: rest) := by
+  intro pre
+  induction pre with
+  | nil => exact ⟨[], rfl⟩
+  | cons x pre ih =>
+    obtain ⟨P, hP⟩ := ih
+    refine ⟨lbl name isGlobal jumps x ++
+      bodyOf o patches name (chunkOf G x) (pre ++ k :: rest).head? ++ P, ?_⟩
+    rw [List.cons_append, layout_cons, hP]
+    simp [List.append_assoc]
+
+/-- Lemma (a): every graph configuration `(k, off, h)` of a chunk of the table has a program
+counter in the rendered lines. -/
+theorem ra_exists (S : Setup o patches name G isGlobal ls order) {k : Nat} (hk : k ∈ order)
+    (off : Nat) (h : Hist) (regs : Spec.Regs) (sw : String) :
+    ∃ pc, RA o patches name G isGlobal ls order ⟨k, off, h⟩ ⟨pc, rh patches h, regs, sw⟩ := by
+  obtain ⟨pre, rest, hord⟩ := List.append_of_mem hk
+  obtain ⟨J, hJ⟩ : ∃ J, J = regsOf o patches name G order := ⟨_, rfl⟩
+  have hls : ls = layout o patches name G isGlobal J order := by rw [hJ]; exact S.hls
+  obtain ⟨P, hP⟩ := layout_append (o := o) (patches := patches) (name := name) (G := G)
+    (isGlobal := isGlobal) J k rest pre
+  have hsplit := stmtLines_append (o := o) (patches := patches)
+    ((chunkOf G k).statements.take off) ((chunkOf G k).statements.drop off)
+  rw [List.take_append_drop] at hsplit
+  have hdec : ls = (P ++ lbl name isGlobal J k ++
+      stmtLines o patches ((chunkOf G k).statements.take off)) ++
+      (stmtLines o patches ((chunkOf G k).statements.drop off) ++
+        ((renderBranching o patches name (chunkOf G k) rest.head?).1 ++
+          (if (renderBranching o patches name (chunkOf G k) rest.head?).2.2 then [] else [.blank]) ++
+          layout o patches name G isGlobal J rest)) := by
+    rw [hls, hord, hP, layout_cons, bodyOf, hsplit]
+    simp [List.append_assoc]
+  refine ⟨(P ++ lbl name isGlobal J k ++
+    stmtLines o patches ((chunkOf G k).statements.take off)).length, rfl, pre, rest, hord, ?_⟩
+  show ls.drop _ = _
+  rw [hdec, List.drop_left, hJ]
+  rfl
+
+/-! ### 7. Runs -/
+
+/-- A finished graph run is matched by a finished assembly run with the corresponding outcome
+and history; in particular the assembly run never ends in `runOff` or `stuck` (`ORel` relates
+neither) — `no_runoff`. -/
+theorem run_sim (S : Setup o patches name G isGlobal ls order) (w : SWorld)
+    (C : Compat o patches name G w aw) (P : PreambleOK G) (SW : SwitchNotLast G order) :
+    ∀ (n : Nat) (g : GCfg) (a : ACfg) (oc : Outcome) (h : Hist),
+      RA o patches name G isGlobal ls order g a → giter w G n g = .fin oc h →
+      ∃ m oc', aiter aw ls m a = .fin oc' (rh patches h) ∧ ORel patches oc oc' := by
+  intro n
+  induction n with
+  | zero => intro g a oc h _ hg; simp [giter] at hg
+  | succ n ih =>
+    intro g a oc h hR hg
+    obtain ⟨ra, hm, hx⟩ := sim_step (aw := aw) S w C P SW hR
+    have hstar : AStar aw ls (.next a) ra := exit_star hx
+    rw [giter] at hg
+    cases hgs : gstep w G g with
+    | next g' =>
+      rw [hgs] at hg hm
+      cases ra with
+      | fin _ _ => simp [MatchA] at hm
+      | next a' =>
+        obtain ⟨m, oc', hm1, hm2⟩ := ih g' a' oc h hm hg
+        have h2 := aiter_star aw ls m a'
+        rw [hm1] at h2
+        obtain ⟨m', hm'⟩ := star_aiter (hstar.trans h2) a rfl _ _ rfl
+        exact ⟨m', oc', hm', hm2⟩
+    | fin o' h' =>
+      rw [hgs] at hg hm
+      injection hg with e1 e2
+      subst e1; subst e2
+      cases ra with
+      | next _ => simp [MatchA] at hm
+      | fin oc' ah =>
+        obtain ⟨hm1, hm2⟩ := hm
+        subst hm2
+        obtain ⟨m', hm'⟩ := star_aiter hstar a rfl _ _ rfl
+        exact ⟨m', oc', hm', hm1⟩
+
+/-! ### 8. The world induced by an assembly world satisfies `Compat` (C02) -/
+
+/-- The graph-level world an assembly world induces through the documented meaning of leaves. -/
+def inducedWorld (patches : List ((Nat × Nat) × String)) (aw : AWorld) : SWorld :=
+  { test := fun h e => Spec.leafHolds (aw.at (rh patches h)) [] e
+    caseEq := fun h op v => aw.caseEq (rh patches h) op.lit v.lit }
+
+theorem execTest_rbc_regs (w : Spec.World) (h : Spec.Hist) (t : Nat) (e : OpExpr) (r : Spec.Regs) :
+    Spec.execTest w h (renderBranchComparison o name t e) r =
+      Spec.execTest w h (renderBranchComparison o name t e) {} := by
+  unfold renderBranchComparison
+  rw [C02.marker_exec, C02.marker_exec]
+  split
+  · split <;> simp [Spec.execTest]
+  · split <;> simp [Spec.execTest]
+  · simp [Spec.execTest]
+  · simp [Spec.execTest]
+
+variable (o patches name G) in
+/-- For well-formed leaves (what the parser builds) the induced world is compatible: this is
+`C02.leaf_rendering_sound`. -/
+theorem compat_induced (aw : AWorld)
+    (hwf : ∀ c ∈ G, ∀ t e f, c.branch = .leaf t e f → Spec.WellFormedLeaf e) :
+    Compat o patches name G (inducedWorld patches aw) aw := by
+  refine ⟨?_, ?_⟩
+  · intro c hc t e f hb h r
+    rw [execTest_rbc_regs, C02.leaf_rendering_sound _ _ _ _ _ _ (hwf c hc t e f hb)]
+    rfl
+  · intro c hc op cases dflt dest hb sc hsc h
+    rfl
 
 end Sim
+
+/-! ### 9. The packaged theorem -/
+
+/-- Chunk labels of distinct ids are distinct strings (`name`, `name_1`, `name_2`, …). -/
+def LabelsInjective (name : String) : Prop :=
+  ∀ i j, chunkLabel name i = chunkLabel name j → i = j
+
+theorem repr_inj {i j : Nat} (h : Nat.repr i = Nat.repr j) : i = j := by
+  have h1 := congrArg String.toList h
+  simp only [Nat.toList_repr] at h1
+  have h2 := congrArg (fun l => Nat.ofDigitChars 10 l 0) h1
+  simpa using h2
+
+/-- Proved, so it is not a hypothesis of `render_sim`. -/
+theorem labelsInjective (name : String) : LabelsInjective name := by
+  intro i j h
+  unfold chunkLabel at h
+  by_cases hi : i = 0 <;> by_cases hj : j = 0
+  · omega
+  · exfalso
+    subst hi
+    have h' : name = name ++ "_" ++ Nat.repr j := by simp [hj] at h; exact h
+    have hl := congrArg String.length h'
+    simp only [String.length_append] at hl
+    have := @Nat.length_repr_pos j
+    have h1 : "_".length = 1 := by decide
+    omega
+  · exfalso
+    subst hj
+    have h' : name ++ "_" ++ Nat.repr i = name := by simp [hi] at h; exact h
+    have hl := congrArg String.length h'
+    simp only [String.length_append] at hl
+    have := @Nat.length_repr_pos i
+    have h1 : "_".length = 1 := by decide
+    omega
+  · simp [hi, hj] at h
+    exact repr_inj h
+
+/-- **The simulation chunk graph → rendered lines.**  For a closed chunk table with pairwise
+distinct ids containing 0 whose rendering succeeded (`o.markers` arbitrary, either order):
+* every graph configuration `(k, off, h)` has a program counter in `ls` (`RA`);
+* the first line of the script leads to the configuration corresponding to `(0, 0, [])`;
+* one `gstep` from a configuration related to `a` is matched by one or more `astep`s from `a`
+  reaching a related configuration — or both finish with corresponding outcomes and the same
+  history; the only zero-step case is a fall-through into the chunk laid out next (`Succ`), which
+  leaves `a` unchanged. -/
+theorem render_sim (o : Opts) (patches : List ((Nat × Nat) × String)) (name : String)
+    (G : List Chunk) (isGlobal : Bool) (tl : List String) (ls : List Line)
+    (hnd : (G.map (·.id)).Nodup) (h0 : 0 ∈ G.map (·.id)) (hcl : Closed G) (hpre : PreambleOK G)
+    (hr : renderChunks o patches G name isGlobal tl = .ok ls) :
+    ∃ order, C05.chunkOrder o G = .ok order ∧
+      (∀ k ∈ G.map (·.id), ∀ off h regs sw,
+        ∃ pc, RA o patches name G isGlobal ls order ⟨k, off, h⟩ ⟨pc, rh patches h, regs, sw⟩) ∧
+      (SwitchNotLast G order → ∀ (w : SWorld) (aw : AWorld), Compat o patches name G w aw →
+        (∀ regs sw, ∃ a0, AStar aw ls (.next ⟨0, [], regs, sw⟩) (.next a0) ∧
+          RA o patches name G isGlobal ls order ⟨0, 0, []⟩ a0) ∧
+        (∀ g a, RA o patches name G isGlobal ls order g a →
+          ∃ ra, MatchA o patches name G isGlobal ls order (gstep w G g) ra ∧
+            (APlus aw ls a ra ∨
+              (ra = .next a ∧ ∃ g', gstep w G g = .next g' ∧ Succ order g.k g'.k))) ∧
+        (∀ n g a oc h, RA o patches name G isGlobal ls order g a → giter w G n g = .fin oc h →
+          ∃ m oc', aiter aw ls m a = .fin oc' (rh patches h) ∧ ORel patches oc oc')) := by
+  obtain ⟨order, ho, hh, S⟩ := setup_of_render o patches name G isGlobal ls tl hnd h0 hcl
+    (labelsInjective name) hr
+  obtain ⟨hp, _⟩ := C05.chunkOrder_perm o G order h0 ho
+  refine ⟨order, ho, ?_, ?_⟩
+  · intro k hk off h regs sw
+    exact ra_exists S (hp.mem_iff.2 hk) off h regs sw
+  · intro SW w aw C
+    exact ⟨fun regs sw => entry_sim (aw := aw) S hh regs sw,
+      fun g a hR => sim_step (aw := aw) S w C hpre SW hR,
+      run_sim (aw := aw) S w C hpre SW⟩
+
+/-! ### 9b. `SwitchNotLast` for the unoptimised order -/
+
+theorem getLast_max : ∀ {l : List Nat}, l.Pairwise (· ≤ ·) → ∀ {m}, l.getLast? = some m →
+    ∀ x ∈ l, x ≤ m := by
+  intro l
+  induction l with
+  | nil => intro _ m _ x hx; cases hx
+  | cons a t ih =>
+    intro hs m hl x hx
+    rw [List.pairwise_cons] at hs
+    cases t with
+    | nil =>
+      simp at hl hx
+      omega
+    | cons b t' =>
+      rw [List.getLast?_cons_cons] at hl
+      rcases List.mem_cons.1 hx with rfl | hx
+      · have hm : m ∈ b :: t' := List.mem_of_getLast? hl
+        exact hs.1 m hm
+      · exact ih hs.2 hl x hx
+
+/-- In the sorted (unoptimised) order a `switch` chunk is not last as soon as some chunk has a
+larger id — for emitter-built tables: its case-body chunks, allocated after it. -/
+theorem switchNotLast_sorted (G : List Chunk)
+    (h : ∀ c ∈ G, ∀ op cases, c.branch = .switch_ op cases none none →
+      ∃ d ∈ G.map (·.id), c.id < d) :
+    SwitchNotLast G (sortNat (G.map (·.id))) := by
+  intro c hc op cases hb hlast
+  obtain ⟨d, hd, hlt⟩ := h c hc op cases hb
+  have := getLast_max (C05.sortNat_sorted _) hlast d ((C05.sortNat_perm _).mem_iff.2 hd)
+  omega
+
+/-! ### 10. Non-vacuity and the `switch` finding -/
+
+/-- A chunk table with a leaf test, a `switch` with a return chunk, shared continuation chunks. -/
+def demoG : List Chunk :=
+  [ { id := 0, statements := [.cmd { id := 1, name := "lock" }], branch := .jump 1 },
+    { id := 1, branch := .leaf 2 { type := .FLAG, operator := .EQ, cmpValue := "TRUE",
+                                   operand := { lit := "F" } } (some 3) },
+    { id := 2, statements := [.cmd { id := 2, name := "msgbox" }], returnID := some 3 },
+    { id := 3, branch := .switch_ { lit := "VAR_X" } [{ value := { lit := "1" }, dest := 4 }] none (some 5) },
+    { id := 4, statements := [.cmd { id := 3, name := "foo" }], returnID := some 5 },
+    { id := 5, statements := [.cmd { id := 4, name := "release" }] } ]
+
+def demoLs (optimize : Bool) : List Line :=
+  match renderChunks { optimize := optimize } [] demoG "S" true [] with
+  | .ok l => l
+  | .error _ => []
+
+theorem demoG_closed : Closed demoG := by
+  unfold Closed demoG
+  simp [targets]
+
+theorem demoG_preamble : PreambleOK demoG := by
+  intro c hc t e f p hb hp
+  simp [demoG] at hc
+  rcases hc with rfl | rfl | rfl | rfl | rfl | rfl <;> simp at hb
+  obtain ⟨_, rfl, _⟩ := hb
+  simp at hp
+
+theorem demoG_wf : ∀ c ∈ demoG, ∀ t e f, c.branch = .leaf t e f → Spec.WellFormedLeaf e := by
+  intro c hc t e f hb
+  simp [demoG] at hc
+  rcases hc with rfl | rfl | rfl | rfl | rfl | rfl <;> simp at hb
+  obtain ⟨_, rfl, _⟩ := hb
+  right
+  exact ⟨Or.inl rfl, Or.inl rfl, Or.inl (by decide)⟩
+
+theorem demoG_order : C05.chunkOrder { optimize := true } demoG = .ok [0, 1, 3, 5, 2, 4] := by
+  simp [C05.chunkOrder, optimizeChunkOrder, demoG, optimizeLoop, optimizeLoop.pick, scanUnvisited,
+    findChunk, tailId]
+
+theorem demo_render (b : Bool) :
+    renderChunks { optimize := b } [] demoG "S" true [] = .ok (demoLs b) := by
+  cases b
+  · rfl
+  · unfold demoLs
+    rw [C05.renderChunks_eq, demoG_order]
+    rfl
+
+/-- `render_sim` applies to `demoG` in both orders. -/
+example (b : Bool) := render_sim { optimize := b } [] "S" demoG true [] (demoLs b)
+  (by decide) (by decide) demoG_closed demoG_preamble (demo_render b)
+
+/-- …and its inner hypotheses are satisfiable: the induced world is compatible. -/
+example (aw : AWorld) (b : Bool) : Compat { optimize := b } [] "S" demoG (inducedWorld [] aw) aw :=
+  compat_induced _ _ _ _ aw demoG_wf
+
+/-- A `switch` without default and without return chunk that is *not* last: `SwitchNotLast`
+holds non-vacuously (both orders are `[0, 1, 2]`), and the switch chunk ends in `return`. -/
+def demoSw : List Chunk :=
+  [ { id := 0, branch := .jump 1 },
+    { id := 1, branch := .switch_ { lit := "VAR_X" } [{ value := { lit := "1" }, dest := 2 }] none none },
+    { id := 2, statements := [.cmd { id := 1, name := "foo" }] } ]
+
+example : SwitchNotLast demoSw [0, 1, 2] ∧ SwitchNotLast demoSw (sortNat (demoSw.map (·.id))) ∧
+    renderChunks { optimize := false } [] demoSw "S" true [] =
+      .ok [.labelDef "S" true, .switch_ "VAR_X", .case_ "1" "S_2", .terminator false, .blank,
+           .labelDef "S_2" false, .command "foo" [], .terminator false, .blank] := by
+  refine ⟨?_, switchNotLast_sorted _ ?_, rfl⟩
+  · intro c hc op cases hb
+    simp [demoSw] at hc
+    rcases hc with rfl | rfl | rfl <;> simp at hb ⊢
+  · intro c hc op cases hb
+    simp [demoSw] at hc
+    rcases hc with rfl | rfl | rfl <;> simp at hb ⊢
+    exact ⟨2, by simp [demoSw], by decide⟩
+
+/-- **Finding (`no_runoff`).**  `Closed` does not exclude a `switch` chunk without default and
+without return chunk being laid out last; then `renderBranching` emits neither `return` nor
+`goto` (its `dest != next` test compares `none` with `none`) and the assembly runs off the end
+of the script, while the graph machine returns.  The emitter never builds such a table (a
+`switch` chunk always has a body chunk with a larger id that is laid out after it), which is
+what the hypothesis `SwitchNotLast` records. -/
+def badG : List Chunk :=
+  [ { id := 0, branch := .jump 2 },
+    { id := 1, statements := [.cmd { id := 1, name := "foo" }] },
+    { id := 2, branch := .switch_ { lit := "VAR_X" } [{ value := { lit := "1" }, dest := 1 }] none none } ]
+
+def badLs : List Line :=
+  match renderChunks { optimize := false } [] badG "S" true [] with
+  | .ok l => l
+  | .error _ => []
+
+def noMatch : AWorld :=
+  { flag := fun _ _ => false, trainer := fun _ _ => false, cmp := fun _ _ _ => 0, caseEq := fun _ _ _ => false }
+
+example : Closed badG ∧ PreambleOK badG ∧
+    renderChunks { optimize := false } [] badG "S" true [] = .ok badLs ∧
+    ¬ SwitchNotLast badG [0, 1, 2] ∧
+    (match giter (inducedWorld [] noMatch) badG 5 ⟨0, 0, []⟩ with
+      | .fin o _ => some o | .next _ => none) = some .ret ∧
+    (match aiter noMatch badLs 10 ⟨0, [], {}, ""⟩ with
+      | .fin o _ => some o | .next _ => none) = some .runOff := by
+  refine ⟨by unfold Closed badG; simp [targets], ?_, rfl, ?_, by decide, by decide⟩
+  · intro c hc t e f p hb hp
+    simp [badG] at hc
+    rcases hc with rfl | rfl | rfl <;> simp at hb
+  · intro h
+    exact h _ (by simp [badG]; right; right; rfl) _ _ rfl rfl
 
 end Pory.RenderSim
